@@ -284,6 +284,38 @@ theorem C05_fixed_partial (sched : List RaceStep) (s : RaceSt)
   · exact Or.inr h1
   · cases h1
 
+/-- **F17 + F18 + F23** (`joinedTree`: `NSQD.Exit` joins every connection handler and its messagePump before it
+closes the topics): the last window is closed — whatever the schedule, once the shutdown has completed and
+every goroutine has run to its end, every acknowledged message is on a disk queue or was FINished.  This is
+`C05_full_fixed` without any hypothesis, for the tree with the three repairs. -/
+theorem C05_full_joined (sched : List RaceStep) (s : RaceSt)
+    (h : raceRun joinedTree sched = some s) (hd : raceDone s = true) : allAckedOnDisk s = true := by
+  have inv := joinInv_run sched joinedTree s joinInv_init h
+  simp only [raceDone, Bool.and_eq_true, List.isEmpty_iff] at hd
+  obtain ⟨⟨⟨⟨htc, _⟩, hph⟩, _⟩, _⟩ := hd
+  have hcc := inv.fixed.tc htc
+  unfold allAckedOnDisk
+  rw [List.all_eq_true]
+  intro m hm
+  have := inv.fixed.safe m hm
+  unfold Safe at this
+  rw [hph, htc, hcc, inv.late] at this
+  simp only [Bool.or_eq_true, List.contains_eq_mem, decide_eq_true_eq]
+  simp at this
+  rcases this with h1 | h1 | h1
+  · exact Or.inl (Or.inl h1)
+  · exact Or.inl (Or.inr h1)
+  · exact Or.inr h1
+
+/-- on that tree the pump witness is not a schedule (the topics are not closed while a pump holds a message),
+after the shutdown has begun no pump takes anything, and the interleaving with the waiting made explicit loses
+nothing; F23 alone does not repair the other two windows -/
+theorem joined_witness_impossible :
+    raceRun joinedTree witnessPump = none ∧
+    raceRun joinedTree [.pubCheck 1, .pubSend 1, .fanout, .exitFlag, .pumpRecv] = none ∧
+    lostFrom joinedTree [.pubCheck 1, .pubSend 1, .fanout, .pumpRecv, .pumpRegister 1, .exitFlag, .exitChan, .exitTopicFlush] = false ∧
+    lostFrom { pumpJoin := true } witnessPublish = true ∧ lostFrom { pumpJoin := true } witnessReq = true := by decide
+
 /-- **F17 alone** (whatever the channel-side parameters, from any initial parameter choice with the
 barrier): every acknowledged message is on the topic's disk queue or was handed to the channel by the
 topic pump — nothing is left in the memory queue of a closed topic -/
@@ -318,7 +350,7 @@ theorem C05_partial (s : RaceSt) (hinv : RaceInv s) (hp : s.putPending = []) (hh
     (he : s.topicExiting = false) (hc : s.chanClosed = false) (ht : s.topicClosed = false) :
     raceRun s [.exitFlag, .exitChan, .exitTopicFlush] = some (exited s) ∧
       allAckedOnDisk (exited s) = true ∧ raceDone (exited s) = true := by
-  refine ⟨by simp [raceRun, raceStep, he, hc, ht, hsc, ha, hp, exited], ?_, ?_⟩
+  refine ⟨by simp [raceRun, raceStep, he, hc, ht, hsc, ha, hp, hh, exited], ?_, ?_⟩
   · unfold allAckedOnDisk exited
     rw [List.all_eq_true]
     intro m hm
@@ -405,5 +437,9 @@ example : (raceRun fixedTree fixedDemo).map (fun s => (raceDone s, s.lateReg, s.
 example : (raceRun fixedTree witnessPump).map (fun s => (raceDone s, s.lateReg, allAckedOnDisk s)) = some (true, [1], false) := by decide
 example : (raceRun { topicBarrier := true } [.pubCheck 1, .pubSend 1, .pubCheck 2, .pubSend 2, .fanout, .exitFlag, .exitChan, .exitTopicFlush]).map
     (fun s => (s.topicClosed, s.acked, s.topicDisk, s.fanned)) = some (true, [2, 1], [2], [1]) := by decide
+
+/-- `C05_full_joined` is not vacuous: the same complete shutdown on the tree with F23 -/
+example : (raceRun joinedTree fixedDemo).map (fun s => (raceDone s, s.lateReg, s.acked, s.topicDisk, s.chanDisk, s.finished, allAckedOnDisk s)) =
+    some (true, [], [5, 4, 3, 2, 1], [4, 5], [2, 1], [3], true) := by rfl
 
 end Nsq.Props.C05
